@@ -187,9 +187,11 @@ def sibling_paths(col, gcode, paths, I):
             col.instance('C08.R5', (gcode, f.describe()))
             for axn, letter in (('X_AXIS', 'X'), ('Y_AXIS', 'Y')):
                 o = '%s.position.%s' % (S_OID, axn)
-                if p.fld(o, 'absoluteMode') is False and f.pstatus(letter) <= frozenset(['A', 'F']):
+                if p.fld(o, 'absoluteMode') is not True and (f.pstatus(letter) & frozenset(['A', 'F'])):
                     init = Poly.sym(o + '.current')
-                    for v in f.final(o, 'current', {('fld', o, 'absoluteMode'): frozenset([False])}):
+                    assume = {('fld', o, 'absoluteMode'): frozenset([False]),
+                              ('param', ('sstr', 'CMD'), letter): frozenset(['A', 'F'])}
+                    for v in f.final(o, 'current', assume):
                         if isinstance(v, Num) and v.p != init and not any('planArc' in s for s in v.p.symbols()):
                             col.report('C08.R5', where.replace('G3', 'G2'), 'absolute arc coordinates interpreted in relative mode',
                                        'in relative positioning an arc without %s word must end at the current %s; the '
